@@ -152,7 +152,7 @@ class Inotify:
         self._inotify_fd = inotify_fd
         self._lock = threading.Lock()
         self._closed = False
-        self._is_reading = True
+        self._is_reading = False
         self._kill_r, self._kill_w = os.pipe()
 
         # _check_inotify_fd will return true if we can read _inotify_fd without blocking
